@@ -188,7 +188,7 @@ type LitRoot struct {
 
 // NewWalker creates a walker with the default inlining policy: same package, depth <= 4.
 func NewWalker(p *Prog) *Walker {
-	return &Walker{P: p, MaxDepth: 4, MaxPaths: 12000, Unsupported: map[string]string{}, seenLit: map[*ast.FuncLit]bool{},
+	return &Walker{P: p, MaxDepth: 4, MaxPaths: 48000, Unsupported: map[string]string{}, seenLit: map[*ast.FuncLit]bool{},
 		Inline: func(caller, callee *FuncInfo) bool { return caller.Pkg == callee.Pkg }}
 }
 
